@@ -222,6 +222,40 @@ func runC11(c *Ctx) {
 		ruleDefer(c, "R-DEFER", dp)
 	}
 
+	// FILTER-ORDER (added after finding F19): the image-level path filter re-adds the imports of the targeted files
+	// (getImageWithImports), so excluding imports must come after it on every path
+	c.Rule("FILTER-ORDER", "imports are excluded after the path filter that can add them back", 1)
+	if fr := p.Func(pkgBufctl, "filterImage"); fr == nil {
+		c.Fail("FILTER-ORDER", "filterImage", token.NoPos, "not found")
+	} else {
+		info := fr.Info()
+		g := p.CFGOf(fr.Decl.Body, info)
+		var without, paths []ast.Node
+		ast.Inspect(fr.Decl.Body, func(n ast.Node) bool {
+			if call, ok := n.(*ast.CallExpr); ok {
+				if fn := Callee(info, call); fn != nil && fn.Pkg() != nil && strings.HasSuffix(fn.Pkg().Path(), "/bufimage") {
+					switch {
+					case fn.Name() == "ImageWithoutImports":
+						without = append(without, call)
+					case strings.HasPrefix(fn.Name(), "ImageWithOnlyPaths"):
+						paths = append(paths, call)
+					}
+				}
+			}
+			return true
+		})
+		bad := false
+		for _, w := range without {
+			for _, pth := range paths {
+				if g.Reachable(w, pth) {
+					bad = true
+				}
+			}
+		}
+		c.Ob("FILTER-ORDER", "bufctl.filterImage", fr.Decl.Pos(), len(without) == 1 && len(paths) >= 1 && !bad, true,
+			"%d ImageWithoutImports and %d ImageWithOnlyPaths* calls; a path filter reachable after the import exclusion: %v", len(without), len(paths), bad)
+	}
+
 	// ---- (3) EXT-NUMBER
 	c11ExtNumber(c, pkImg, pkV1)
 
